@@ -138,15 +138,16 @@ Proof.
       repeat (split; [assumption|]). assumption. }
     destruct r as [[cache' fs3]|].
     2:{ (* an upload or a base read failed *)
-        cbn [fst fail]. subst w0. destruct Hi0 as [J1 J2 J3 J4 J5 J6 J7 J8 J9 J10].
-        constructor; unf; auto. rewrite Nx. exact IS'. }
+        cbn [fst fail]. subst w0. destruct Hi0 as [J1 J2 J3 J4 J5 J6 J7 J8 J9 J10 J11].
+        constructor; unf; auto; [rewrite Nx; exact IS'|].
+        intros r0 Hr0. apply (serves_ext_grows Ent Hsh (w_store w)); [exact Gr'|now apply J11]. }
     destruct (R' cache' fs3 eq_refl) as [Hca' Hpres].
     (* the package is in the store: nextEntry advances *)
     rewrite Nx. cbn [fst].
     set (next' := if x <? pend then pend else x).
     assert (En : next' = N.max x pend) by (unfold next'; destruct (N.ltb_spec x pend); lia).
     pose proof (i_hi _ _ _ _ _ _ _ Hi) as Hhi'.
-    destruct Hi as [J1 J2 J3 J4 J5 J6 J7 J8 J9 J10].
+    destruct Hi as [J1 J2 J3 J4 J5 J6 J7 J8 J9 J10 J11].
     constructor; unf; auto.
     + (* the store part *)
       destruct IS' as (K1 & K2 & K3 & K4 & K5 & K6 & K7 & K8).
@@ -168,6 +169,7 @@ Proof.
         unfold pend in En. lia.
       * apply (sess_ok_mono _ _ _ _ _ (J7 sid' s' Hs') (N.le_refl _)).
         intros y Hy. rewrite Nx in Hy. inversion Hy; subst y. exists next'. split; [reflexivity|lia].
+    + intros r0 Hr0. apply (serves_ext_grows Ent Hsh (w_store w)); [exact Gr'|now apply J11].
 Qed.
 
 End Steps3.
